@@ -33,7 +33,7 @@ fn docs(rng: &mut Rng, n: usize) -> Vec<J> {
     d.extend(gen::boundary_docs().into_iter().filter(|x| x.node_count() < 700).take(24));
     let mut cfg = gen::DocCfg::default();
     cfg.keys.push("xy".into());
-    for k in ["line\u{85}next", "\u{80}", "a\u{7f}\u{e9}", "\u{9f}b", "\u{feff}a", "a\u{ffff}", "\u{a0}", "\u{2028}x", "\u{e9}"] {
+    for k in ["line\u{85}next", "\u{80}", "a\u{7f}\u{e9}", "\u{9f}b", "\u{feff}a", "a\u{ffff}", "\u{a0}", "\u{2028}x", "\u{e9}", "\u{10d}aj", "vi\u{10d}", "\u{420}\u{43e}\u{441}\u{441}\u{438}\u{44f}", "\u{4e0a}", "\u{4e09}x", "x\u{120}", "\u{12e}", "a\u{15b}", "\u{127}b", "\u{124}", "\u{140}\u{12a}", "vi"] {
         cfg.keys.push(k.into());
     }
     cfg.strings.push("a b".into());
@@ -87,7 +87,7 @@ pub fn run(ctx: &Ctx) -> Result<Evidence, String> {
     asts.extend(gen::composition_queries().iter().filter_map(|t| analyze(t).ast));
     let n_curated = asts.len();
     let mut qcfg = gen::QueryCfg::default();
-    qcfg.names = ["a", "b", "c", "k", "x y", "xy", "_1", "\u{e9}", "line\u{85}next", "\u{80}", "a\u{7f}\u{e9}", "\u{9f}b", "\u{feff}a", "a\u{ffff}", "\u{a0}", "\u{2028}x"].iter().map(|s| s.to_string()).collect();
+    qcfg.names = ["a", "b", "c", "k", "x y", "xy", "_1", "\u{e9}", "line\u{85}next", "\u{80}", "a\u{7f}\u{e9}", "\u{9f}b", "\u{feff}a", "a\u{ffff}", "\u{a0}", "\u{2028}x", "\u{10d}aj", "vi\u{10d}", "\u{420}\u{43e}\u{441}\u{441}\u{438}\u{44f}", "\u{4e0a}", "\u{4e09}x", "x\u{120}", "\u{12e}", "a\u{15b}", "\u{127}b", "\u{124}", "\u{140}\u{12a}"].iter().map(|s| s.to_string()).collect();
     for _ in 0..ctx.tier.pick(1500, 250000) {
         asts.push(gen::random_query(&mut rng, &qcfg));
     }
